@@ -1,7 +1,7 @@
 CONSTANTS
   MaxTasks = 5
   MaxSend = 2
-  WithOnConnect = TRUE
+  WithOnConnect = FALSE
   HandlerCloses = FALSE
   WithCloser = FALSE
   Dev_NoConnRecheck = FALSE
@@ -9,5 +9,5 @@ CONSTANTS
   Dev_HupLockTwice = FALSE
   Dev_NoHupTask = FALSE
 SPECIFICATION Spec
-INVARIANTS DisconnectBeforeClose
+INVARIANTS TypeOK NoBadButF11 NoLeak DisconnectRan AllOffered TaskBudget
 CHECK_DEADLOCK FALSE
